@@ -52,6 +52,9 @@ type Broker struct {
 	PongDelay atomic.Int64
 	DialCount atomic.Int32
 	newSess   chan *Session
+	// Unreliable (default off): every link dialled while it is set also has memtr's unreliable
+	// (datagram-like) channel, so the client's transport answers AsUnreliable() with ok.
+	Unreliable atomic.Bool
 }
 
 func New(h Handler) *Broker {
@@ -72,6 +75,9 @@ func (b *Broker) dial(c transport.DialConfig) (transport.Transport, error) {
 		}
 	}
 	l := memtr.NewLink(transport.NegotiationParams{Encoding: transport.EncodingNameProtobuf})
+	if b.Unreliable.Load() {
+		l.EnableUnreliable()
+	}
 	s := &Session{Idx: idx, B: b, Link: l, Dial: c}
 	s.Enc = encoding.NewTransport(&encoding.TransportConfig{Transport: l.Server(), Encoding: protobuf.NewEncoding()})
 	b.mu.Lock()
